@@ -93,11 +93,11 @@ LINES = {
 
 # The measure of a segment does not depend on where the segment lies: the same tessellations on segments FAR from the origin
 # relative to the cell size (|coordinates| / cell length ~ 1e6, e.g. metre-sized cells in UTM coordinates).  The directions are
-# 24 x an integer vector, so that for the lattices k/6 and k/8 every node coordinate is an integer below 2^24: node coordinates,
+# 24 x an integer vector, so that for the lattices k/6 and k/8 every node coordinate is an integer below 2^26: node coordinates,
 # cell lengths and the cross products / quotients formed by segments_3d are exact in double precision.
 FAR_LINES = {
     "far from the origin, parallel to the x-axis": ((2 ** 23, 0, 0), (24, 0, 0)),
-    "far from the origin, general direction": ((2 ** 23, -(2 ** 22), 2 ** 21), (48, -72, 144)),
+    "far from the origin, general direction": ((2 ** 23, -(2 ** 24), 2 ** 25), (48, -72, 144)),
 }
 
 
@@ -240,8 +240,8 @@ def sweep_1d(rep, pp, quick):
     with rep.sweep(
         "line_tessellation / match_1d far from the origin",
         rule=f"the same ordered pairs of node subsets of the lattice k/{N} (every {'2nd' if quick else '3rd'} pair), on two segments whose "
-             "distance from the origin is ~1e6 cell lengths (integer node coordinates around 2^23, cells 3..24 long; one parallel to the "
-             "x-axis, one with all three coordinates varying), alternating; line_tessellation with scrambled node columns and alternating "
+             "distance from the origin is ~1e6 cell lengths (integer node coordinates around 2^23..2^25, cells 3..24 (x-axis) / 21..168 long; "
+             "one parallel to the x-axis, one with all three coordinates varying), alternating; line_tessellation with scrambled node columns and alternating "
              "segment orientation, and match_1d 'averaged' / 'integrated' on 1-D grids with these nodes; non-trivial = node sets differ; "
              "distinct by (line, subset 1, subset 2)",
         bound=f"{len(subsets)} x {len(subsets)} pairs / {step}",
@@ -329,13 +329,13 @@ def structured(nx, ny, diag, rng, perturb):
     raise AssertionError("no valid perturbation found")
 
 
-def delaunay(n_int, rng):
+def delaunay(n_int, rng, den=24):
     from scipy.spatial import Delaunay
     import numpy as np
 
     pts = [(Fraction(0), Fraction(0)), (Fraction(1), Fraction(0)), (Fraction(1), Fraction(1)), (Fraction(0), Fraction(1))]
     while len(pts) < 4 + n_int:
-        q = (Fraction(rng.randint(1, 23), 24), Fraction(rng.randint(1, 23), 24))
+        q = (Fraction(rng.randint(1, den - 1), den), Fraction(rng.randint(1, den - 1), den))
         if q not in pts:
             pts.append(q)
     for k in range(rng.randint(0, 2)):  # boundary nodes
@@ -623,19 +623,20 @@ def sweep_2d_fine(rep, pp, quick):
     interior lattice points k/24 have 60+ (140+) cells, and pairs of them have many genuine overlaps in general position with an
     area below 1e-4 (1e-6): these must still be counted."""
     rng = rep.rng  # drawn after every other family, so that the seeded cases of the other sweeps are unchanged
-    plan = [(30, 3, 1e-4), (70, 2, 1e-6)] if quick else [(30, 6, 1e-4), (30, 6, 1e-6), (70, 4, 1e-6), (70, 4, 1e-4)]
+    # (interior nodes, lattice denominator, pool size, tol)
+    plan = [(30, 24, 3, 1e-4), (70, 1000, 2, 1e-6)] if quick else [(30, 24, 6, 1e-4), (30, 1000, 6, 1e-6), (70, 1000, 4, 1e-6), (70, 24, 4, 1e-4)]
     with rep.sweep(
         "match_2d on fine triangulations, tolerance 1e-4 / 1e-6",
-        rule="Delaunay triangulations of the unit square with 30 or 70 seeded interior nodes on the lattice k/24 and 0-2 extra boundary nodes "
-             "(60+ / 140+ cells); consecutive members of each pool matched cyclically (new = k, old = k+1) in the plane z=0 with scaling "
-             "'averaged' and 'integrated'; tol = 1e-4 (the value of the library's tests) or 1e-6 (the MortarGrid default): quick 30 nodes with "
-             "1e-4 and 70 nodes with 1e-6, thorough all four combinations; non-trivial = some exact cell-cell overlap has positive area below "
-             "tol; distinct by (pool, pair)",
+        rule="Delaunay triangulations of the unit square with 30 or 70 seeded interior nodes on the lattice k/24 (with tol 1e-4) or k/1000 (with "
+             "tol 1e-6) and 0-2 extra boundary nodes (60+ / 140+ cells); consecutive members of each pool matched cyclically (new = k, old = "
+             "k+1) in the plane z=0 with scaling 'averaged' and 'integrated'; tol = 1e-4 (the value of the library's tests) or 1e-6 (the "
+             "MortarGrid default): quick 30 nodes with 1e-4 and 70 nodes with 1e-6, thorough all four combinations; non-trivial = some exact "
+             "cell-cell overlap has positive area below tol; distinct by (pool, pair)",
         bound="quick: pools of 3 and 2 (5 ordered pairs); thorough: 4 pools, 20 ordered pairs",
         exhaustive=False,
     ) as sw:
-        for pool_id, (n_int, n_tess, tol) in enumerate(plan):
-            pool = [delaunay(n_int, rng) for _ in range(n_tess)]
+        for pool_id, (n_int, den, n_tess, tol) in enumerate(plan):
+            pool = [delaunay(n_int, rng, den) for _ in range(n_tess)]
             grids = [make_grid(pp, t, False) for t in pool]
             for k in range(n_tess):
                 (p1, t1), (p2, t2) = pool[k], pool[(k + 1) % n_tess]
